@@ -419,15 +419,21 @@ func linStress(r *runner, p map[string]string) string {
 				}
 			}()
 			rnd := rand.New(rand.NewSource(seed*131 + int64(t)))
+			var scratch []byte
 			for i := 0; i < nops; i++ {
 				o := &linOp{key: rnd.Intn(keys), tid: t}
 				k := linKey(o.key)
 				switch c := rnd.Intn(100); {
 				case c < 45:
 					o.kind, o.val = 'p', fmt.Sprintf("v%d.%d.%s", t, i, pad[:rnd.Intn(len(pad))])
+					// one scratch buffer per client, reused for every value and overwritten as soon as Put has returned
+					scratch = append(scratch[:0], o.val...)
 					o.call = now()
-					err := e.Put(k, []byte(o.val))
+					err := e.Put(k, scratch)
 					o.ret = now()
+					for j := range scratch {
+						scratch[j] = '#'
+					}
 					o.ok = err == nil
 					if err != nil {
 						o.errTxt = errTok(err)
